@@ -50,6 +50,7 @@ def _params_of(labels):
 def run(facts, report, config):
     eng = flow.Engine(facts, flow.Policy())
     eng.run_all(collect=False)
+    run_zip(facts, report, config, eng)
     for b in facts.fn_bodies():
         if b["kind"] == "Closure" or b.get("name") not in SELECT_NAMES:
             continue
@@ -196,3 +197,76 @@ def _op_ty(view, a):
             return view.locals[l]
         return ""
     return a[1]
+
+
+# ---------------------------------------------------------------------------------------------
+# Comparison of boxed operands of different precision must zero-pad, not truncate.
+
+PRED_RET = ("subtle::Choice", "bool", "const_choice::ConstChoice", "core::cmp::Ordering",
+            "core::option::Option<core::cmp::Ordering>")
+ITER_VP = {"iter", "iter_mut", "into_iter", "rev", "copied", "cloned", "as_limbs", "as_ref", "deref", "as_slice",
+           "as_words", "borrow", "clone", "enumerate", "map"}
+
+
+class IterProv(mir.Provenance):
+    def is_vp(self, term):
+        if super().is_vp(term):
+            return True
+        return mir.last_seg(mir.callee_decl(term)) in ITER_VP and len(term["args"]) >= 1
+
+
+def run_zip(facts, report, config, eng=None):
+    """In a predicate over two heap-allocated operands, `zip` of their limb iterators silently stops at
+    the shorter one: values differing only above the narrower operand would compare equal. Such a zip is
+    accepted only when the function also checks the two lengths against each other."""
+    zips_seen = 0
+    for b in facts.fn_bodies():
+        view = mir.BodyView(b)
+        has_zip = False
+        for bi, t in view.calls():
+            if mir.last_seg(mir.callee_decl(t)) == "zip" and not view.blocks[bi]["cleanup"]:
+                has_zip = True
+        if has_zip:
+            zips_seen += 1
+        if b["kind"] == "Closure":
+            continue
+        so = b.get("sig_out") or ""
+        dyn = [i for i in range(1, view.argc + 1)
+               if "uint::boxed::BoxedUint" in view.locals[i] or view.locals[i] in ("&[limb::Limb]", "&mut [limb::Limb]")]
+        if so not in PRED_RET or len(dyn) < 2:
+            continue
+        report.count("boxed_binary_predicates")
+        key = "c06.zip|%s" % norm_id(b["id"])
+        prov = IterProv(view)
+        bad = None
+        for bi, t in view.calls():
+            if view.blocks[bi]["cleanup"] or mir.last_seg(mir.callee_decl(t)) != "zip" or len(t["args"]) < 2:
+                continue
+            pa = {r.what for r in prov.roots_of_operand(t["args"][0]) if r.kind == "param"}
+            pb = {r.what for r in prov.roots_of_operand(t["args"][1]) if r.kind == "param"}
+            if pa and pb and pa != pb and (pa | pb) <= set(dyn):
+                bad = (t["s"], sorted(pa), sorted(pb))
+        if bad is None:
+            report.add(Instance(key, "c06.zip", "ok", "auto: no truncating zip over the limbs of two operands",
+                                b["span"], {"body": b["id"]}), config)
+            continue
+        # a length comparison between the two operands?
+        guarded = False
+        if eng is not None:
+            summ, evs = eng.analyze(b["id"], collect=True)
+            for e in evs:
+                # the loop's own exit test depends on both lengths (zip stops at the shorter) and does not count:
+                # only an assertion that aborts on a length mismatch does
+                if e.kind == "branch" and not e.via and view.abort_guard(e.bb[0]):
+                    if any(l == "@%d#len" % bad[1][0] for l in e.labels) and any(l == "@%d#len" % bad[2][0] for l in e.labels):
+                        guarded = True
+        if guarded:
+            report.add(Instance(key, "c06.zip", "ok", "auto: zip over both operands' limbs, with a branch comparing "
+                                "their lengths", bad[0], {"body": b["id"]}), config)
+        else:
+            report.add(Instance(key, "c06.zip", "violation",
+                                "predicate `%s` zips the limbs of operands _%s and _%s: iteration stops at the shorter "
+                                "operand, so values of different precision that differ only in the high limbs of the "
+                                "wider one are treated as equal (the shorter operand must be zero-padded)" % (
+                                    b.get("name"), bad[1], bad[2]), bad[0], {"body": b["id"]}), config)
+    report.counters["zip_call_bodies_positive_control"] = report.counters.get("zip_call_bodies_positive_control", 0) + zips_seen
